@@ -273,6 +273,12 @@ impl<P: TravellingSalespersonProblem> Component<P> for MinMaxPheromoneUpdate {
             pm[b][a] = (pm[b][a] + delta).clamp(self.min_pheromones, self.max_pheromones);
         }
 
+        // Keep all trails within the bounds, not only the reinforced ones: evaporation would
+        // otherwise let them decay below `min_pheromones`.
+        for x in &mut pm.inner {
+            *x = x.clamp(self.min_pheromones, self.max_pheromones);
+        }
+
         Ok(())
     }
 }
